@@ -184,14 +184,14 @@ def _new_result(job, workdir):
     }
 
 
-def prepare(job, workdir):
+def prepare(job, workdir, variant="", extra_defines=()):
     """goto-cc + goto-instrument.  Returns (gb_path or None, reason)."""
     os.makedirs(workdir, exist_ok=True)
-    log = os.path.join(workdir, "log.txt")
-    a = os.path.join(workdir, "a.gb")
-    b = os.path.join(workdir, "b.gb")
+    log = os.path.join(workdir, "log%s.txt" % variant)
+    a = os.path.join(workdir, "a%s.gb" % variant)
+    b = os.path.join(workdir, "b%s.gb" % variant)
     cc = ["goto-cc", "--function", job.entry]
-    for d in job.defines:
+    for d in list(job.defines) + list(extra_defines):
         cc.append("-D" + d)
     for i in job.includes:
         cc.append("-I" + i)
@@ -267,11 +267,19 @@ def split_groups(props):
     return groups
 
 
-def solve(job, gb, workdir, props=None, tag=""):
+def canary_property(job, gb, workdir):
+    props = list_properties(job, gb, workdir) or []
+    for p in props:
+        if "vf_canary" in p.get("description", ""):
+            return p.get("name")
+    return None
+
+
+def solve(job, gb, workdir, props=None, tag="", extra=()):
     """One cbmc run (optionally restricted to a list of property names) with the
     job's solver portfolio.  Returns dict(status, reason, results[], solver, solver_s, cmd)."""
     log = os.path.join(workdir, "log%s.txt" % tag)
-    base = base_cmd(job)
+    base = base_cmd(job) + list(extra)
     if props:
         for p in props:
             base += ["--property", p]
